@@ -263,13 +263,22 @@ TEXT_FIXED = ['1', '2', '3']
 TEXT_PRESETS = ['minimal', 'default', 'fw-transformers']
 
 
-def text_problem(rt, preset, cells):
+TEXT_FIRST = [None, 'default', 'minimal,fw-transformers']      # an earlier construction on the SAME frame object (a batch evaluated under two settings)
+
+
+def text_problem(rt, preset, cells, first=None):
     """real FeatureTransformerGeneric on a real frame: every emitted text, read back as a number, is the named formula of the parsed cell"""
     import pandas as pd
     col = list(cells) + TEXT_FIXED
+    frame = pd.DataFrame({'num': col, 'other': ['x'] * len(col)})
+    if first:
+        rt.FeatureTransformerGeneric({'num'}, first).construct_new_features(frame)
     tr = rt.FeatureTransformerGeneric({'num'}, preset)
-    res = tr.construct_new_features(pd.DataFrame({'num': col, 'other': ['x'] * len(col)}))
+    res = tr.construct_new_features(frame)
     xs = [parse_expected(c) for c in col]
+    stray = [c for c in res.columns if c not in ('num', 'other') and c[len('num'):] not in tr.transformer_collection]
+    if stray:
+        return f'{len(stray)} emitted columns are not transformers of the selected preset {preset!r} (e.g. {stray[0]!r})' + (f' after an earlier construction with {first!r} on the same frame' if first else '')
     if list(res['num']) != col:
         return 'the source column changed'
     for c in res.columns:
@@ -304,15 +313,18 @@ def run_text(job):
             ctx.assume(v >= 0, v < len(TEXT_POOL))
         st['p'] = z3.Int('preset')
         ctx.assume(st['p'] >= 0, st['p'] < len(TEXT_PRESETS))
+        st['f'] = z3.Int('first')
+        ctx.assume(st['f'] >= 0, st['f'] < len(TEXT_FIRST))
         for k, v in job['pins'].items():
             ctx.assume(z3.Int(k) == v)
 
     def body(ctx, out):
         cells = [TEXT_POOL[int(SInt(v, 0, len(TEXT_POOL) - 1))] for v in st['c']]
         preset = TEXT_PRESETS[int(SInt(st['p'], 0, len(TEXT_PRESETS) - 1))]
-        w = {'cond': 'text', 'cells': cells, 'preset': preset}
+        first = TEXT_FIRST[int(SInt(st['f'], 0, len(TEXT_FIRST) - 1))]
+        w = {'cond': 'text', 'cells': cells, 'preset': preset, 'first': first}
         try:
-            p = text_problem(rt, preset, cells)
+            p = text_problem(rt, preset, cells, first)
         except Exception as e:
             p = f'{type(e).__name__}: {e}'
         if p or out.twin:
@@ -464,7 +476,7 @@ def replay(w):
         return {'reproduced': False, 'what': 'union selected'}
     if c == 'text':
         try:
-            p = text_problem(rt, w['preset'], w['cells'])
+            p = text_problem(rt, w['preset'], w['cells'], w.get('first'))
         except Exception as e:
             p = f'{type(e).__name__}: {e}'
         if p:
